@@ -1,8 +1,8 @@
-import XjsModel.Proofs.RtLemmas
+import XjsModel.Proofs.RsLemmas
 /-
   Round trip, part 4: one lemma per node kind, each from the invariant of the children.
 -/
-namespace Xjs.RTE
+namespace Xjs.RS
 open Xjs
 
 variable {cfg : PCfg}
@@ -425,4 +425,4 @@ theorem case_arr (hc : BaseCfg cfg) (t : Token) (es : SEList) (hw : (SE.arr t es
   congr 1
   simp [SE.toks]
 
-end Xjs.RTE
+end Xjs.RS
